@@ -9,6 +9,8 @@ Monitors:
 """
 from __future__ import annotations
 
+import random
+
 import re
 
 from vf import fm
@@ -21,7 +23,7 @@ PAIRS = [(88, False), (88, True), (40, False), (40, True), (12, False), (0, True
 # escapes the renderer keeps for ever once the wrapper has added them (every non-period escape);
 # an escaped period is un-escaped again by render_literal, so a surviving '\.' is NOT part of this finding
 _UNESC = re.compile(r"\\(?=[-*+>#=~`_)]|\.)")
-_MIDLINE_ESC_PERIOD = re.compile(r"(?m)^[ >]*\S.*?[ \t]\d+\\\.")
+_MIDLINE_ESC_PERIOD = re.compile(r"(?m)^[ >]*(?:(?:[-*+]|\d+[.)])[ \t]+)*(?:\[[ xX]\][ \t]+)?(?![-*+] |\d+[.)] |\[[ xX]\] )\S.*?[ \t]\d+\\\.")
 _WS = re.compile(r"\s+")
 
 
@@ -61,6 +63,10 @@ class C03(DocProp):
                 words[0] = "Start"
             yield {"kind": "relayout2", "words": words, "breaks": [p_ - 1 for p_ in pos],
                    "opts": [rand_opts(r, widths=[0, 40, 88, 120], force={"ellipses": False, "smartquotes": False}) for _ in range(2)]}
+            if r.random() < 0.04:
+                yield {"kind": "threshold", "seed": r.getrandbits(40), "T": r.choice([2048, 4096, 8192, 8192, 16384]),
+                       "opts": [rand_opts(r, widths=[40, 88], force={"ellipses": False, "smartquotes": False, "semantic": False}),
+                                rand_opts(r, widths=[88], force={"ellipses": False, "smartquotes": False})]}
             n = r.randint(5, 16)
             words = [plain_word(r, 9) for _ in range(n)]
             for _ in range(r.randint(1, 2)):
@@ -94,6 +100,25 @@ class C03(DocProp):
                 d = first_line_diff(oa, ob)
                 desc = self.classify(oa, ob, o, "relayout", dict(case, profile="listlike-continuation"), d)
                 col.violation("relayout", desc, dict(case, opts=[o]), {"layout_a": a, "layout_b": b, "line": d[0], "a": d[1], "b": d[2]})
+
+    def _check_threshold(self, case, col):
+        """Two layouts of one long paragraph whose length is just under a power of two when written with single blanks and
+        well over it when written with space runs (a length at which another code path might take over)."""
+        from vf.gen_para import plain_word
+        r = random.Random(case["seed"])
+        T = case["T"]
+        atoms = ["[two words](http://ex.com/a)", "`a b c`", "{% tag a=1 %}", "<span class=\"a b\">", "[long link text here](http://x.y/z)"]
+        words = []
+        while len(" ".join(words)) < T - 60:
+            words.append(r.choice(atoms) if r.random() < 0.12 else plain_word(r, 9))
+            if r.random() < 0.08:
+                words.append(r.choice(["end.", "stop!", "why?"]))
+        a = " ".join(words)[:T - 1].rsplit(" ", 1)[0] + " end.\n"
+        if a.count("`") % 2 or a.count("[") != a.count("]("):
+            a = re.sub(r"[`\[\]()]", "", a)
+        b = re.sub(r"(?<=[a-z.!?]) (?=[a-z])", lambda m: r.choice([" ", " ", "  ", "   "]), a)
+        self._check_pair(dict(case, a=a, b=b), col)
+        col.count("threshold_pairs")
 
     def _check_pair(self, case, col):
         """An explicit pair of layouts of one document (witnesses of repaired defects); same premise as relayout2."""
